@@ -47,9 +47,9 @@ for _t in tasks.KEY_TONICS:
 
 
 def plan(tier, seed):
-    n = 40 if tier == "quick" else 900
+    n = 160 if tier == "quick" else 3000
     shards = [{"name": "pitch-%d" % p, "kind": "pitch", "n": n}
-              for p in range(8 if tier == "quick" else 12)]
+              for p in range(12)]
     parts = 4 if tier == "quick" else 12
     shards += [{"name": "keys-%d" % p, "kind": "keys", "part": p, "parts": parts,
                 "modes": ["major", "minor"] if tier == "quick" else
